@@ -57,6 +57,7 @@ from ._validation import (
     validate_consistent_type_annotations,
     validate_scopes,
     validate_unique_output_names,
+    validate_unique_output_names_of,
 )
 
 if TYPE_CHECKING:
@@ -390,6 +391,7 @@ class Pipeline:
             representing dependencies between functions.
 
         """
+        validate_unique_output_names_of(self.functions)
         validate_consistent_defaults(self.functions, output_to_func=self.output_to_func)
         g = nx.DiGraph()
         for f in self.functions:
@@ -1144,6 +1146,7 @@ class Pipeline:
     def _validate(self) -> None:
         """Validate the pipeline."""
         validate_scopes(self.functions)
+        validate_unique_output_names_of(self.functions)
         validate_consistent_defaults(self.functions, output_to_func=self.output_to_func)
         self._validate_mapspec()
         if self.validate_type_annotations:
